@@ -157,7 +157,8 @@ static void case_write_faults(ByteSource& in, CaseInfo& ci) {
   unsigned f = in.pick({3, 3, 2, 2, 3}); static const char* names[] = {"mpz_out_raw", "mpz_out_str", "mpq_out_str", "mpf_out_str", "gmp_fprintf"}; ci.label(names[f]); ci.label("write_faults");
   Int V = gen_val(in, 6); if (V.is_zero()) V = Int(123456); if (in.flag()) V = -V; int base = (int)in.range(2, 36); ci.nontrivial = true; ci.d("%s base=%d (unbuffered writer failing at every byte) ", names[f], base); DESC(ci, "v=" + show(V, 48));
   Z z; mpz_from_int(z, V); mpq_t q; mpq_init(q); mpz_from_int(mpq_numref(q), V); mpz_set_ui(mpq_denref(q), 7); mpf_t x; mpf_init2(x, 128); mpf_set_z(x, z); mpf_div_2exp(x, x, 3);
-  auto call = [&](FILE* fp) -> long { switch (f) { case 0: return (long)mpz_out_raw(fp, z); case 1: return (long)mpz_out_str(fp, base, z); case 2: return (long)mpq_out_str(fp, base, q); case 3: return (long)mpf_out_str(fp, base, 0, x); default: return (long)gmp_fprintf(fp, "v=%Zd q=%Qx f=%.5Ff|", z.z, q, x); } };
+  unsigned fmtk = (unsigned)in.range(0, 6);   // gmp_fprintf: formats that end inside an MPIR conversion or its padding, so that the failing write is made by the library itself
+  auto call = [&](FILE* fp) -> long { switch (f) { case 0: return (long)mpz_out_raw(fp, z); case 1: return (long)mpz_out_str(fp, base, z); case 2: return (long)mpq_out_str(fp, base, q); case 3: return (long)mpf_out_str(fp, base, 0, x); default: switch (fmtk) { case 0: return (long)gmp_fprintf(fp, "v=%Zd q=%Qx f=%.5Ff|", z.z, q, x); case 1: return (long)gmp_fprintf(fp, "%Zd", z.z); case 2: return (long)gmp_fprintf(fp, "%-50Zd", z.z); case 3: return (long)gmp_fprintf(fp, "%Qd", q); case 4: return (long)gmp_fprintf(fp, "%60Zx", z.z); case 5: return (long)gmp_fprintf(fp, "%.5Ff", x); default: return (long)gmp_fprintf(fp, "x=%300Zd", z.z); } } };
   WCookie full{std::string(), (size_t)-1}; FILE* fp0 = open_writer(&full); long n0 = call(fp0); fclose(fp0); size_t len = full.got.size(); bool ok0 = n0 == (long)len && len > 0; uint64_t faults = 0; std::string bad;
   for (size_t k = 0; k < len && bad.empty(); k++) { LeakGuard lg(names[f]); WCookie wc{std::string(), k}; FILE* fp = open_writer(&wc); long n = call(fp); fclose(fp); faults++;
     long expect = f == 4 ? -1 : 0; if (n != expect) bad = "write failing at byte " + std::to_string(k) + " of " + std::to_string(len) + ": returned " + std::to_string(n) + ", expected " + std::to_string(expect);
